@@ -393,6 +393,43 @@ Proof.
   eapply cube_lits_CubeAt; eauto.
 Qed.
 
+(** [pick_cube_dd_set], spelled out: false iff false, implicant, and at every
+    node where the value is not forced the polarity of the literal set *)
+Theorem pick_dd_set_bcdd_ok : forall s e set L s' r tr, BcddOK s -> good_bcdd s e -> good_bcdd s set ->
+  cube_lits view_bcdd (S (nlevels s)) s set = Some L ->
+  pick_cube_dd_set_bcdd s e set = Some (s', r, tr) ->
+  BcddOK s' /\ extends s s' /\ good_bcdd s' r /\
+  (forall a, den_bcdd s' r a = true -> den_bcdd s' e a = true) /\
+  ((forall a, den_bcdd s' r a = false) <-> (forall a, den_bcdd s e a = false)) /\
+  ((exists a0, den_bcdd s e a0 = true) -> forall a, den_bcdd s' r a = sat_trace a tr) /\
+  forall p, In p tr -> call_ok view_bcdd good_bcdd den_bcdd s p /\
+    (sp_asked p = true -> sp_val p = Some (lit_pol L (sp_level p))).
+Proof.
+  intros s e set L s' r tr B G Gs El E.
+  rewrite (pick_dd_set_bcdd_eq s e set L B G Gs El) in E.
+  destruct (pick_cube_dd_bcdd unit (mask_choice (lit_pol L)) s tt e) as [[[[s1 r1] tr1] []]|] eqn:Ed;
+    [|discriminate]. simpl in E. inversion E; subst s1 r1 tr1. clear E.
+  destruct (pick_dd_bcdd_implicant unit (mask_choice (lit_pol L)) s tt e s' r tr tt B G Ed)
+    as [B' [X [G' [Hi Hf]]]].
+  split; [exact B'|]. split; [exact X|]. split; [exact G'|]. split; [exact Hi|]. split; [exact Hf|].
+  destruct (pick_cube_bcdd_total unit (mask_choice (lit_pol L)) s tt e B G) as [[[[cb tr0] []]|] Ep].
+  - destruct (pick_dd_bcdd_same_cube unit (mask_choice (lit_pol L)) s tt e cb tr0 tt B G Ep)
+      as [s2 [r2 [P [_ [_ [_ D]]]]]].
+    rewrite Ed in P. inversion P; subst s2 r2 tr0. clear P.
+    destruct (pick_cube_bcdd_some unit (mask_choice (lit_pol L)) s tt e cb tr tt B G Ep) as [R [Lc Wc]].
+    destruct (run_bcdd_levels unit (mask_choice (lit_pol L)) s tt e tr tt B R G) as [A C].
+    split.
+    + intros _ a. apply eq_true_iff_eq. rewrite D.
+      apply (agrees_sat_trace s a cb tr (incr_from_nodup _ _ A) C Wc).
+    + intros p Hp. split.
+      * apply (run_bcdd_calls unit (mask_choice (lit_pol L)) s tt e tr tt B R G p Hp).
+      * apply (run_mask_vals view_bcdd (lit_pol L) s tt e tr tt R p Hp).
+  - rewrite (pick_dd_bcdd_false unit (mask_choice (lit_pol L)) s tt e B G Ep) in Ed.
+    inversion Ed; subst. split; [|intros p []].
+    intros [a0 Ha0]. rewrite (proj1 (pick_cube_bcdd_none_iff unit (mask_choice (lit_pol L)) s' tt r B G) Ep) in Ha0.
+    discriminate.
+Qed.
+
 (** ** [pick_cube_uniform] *)
 
 Lemma count_bcdd_spec : forall s e, BcddOK s -> good_bcdd s e ->
